@@ -19,7 +19,7 @@ SHARDS = {"quick": 16, "thorough": 16}
 RULE = (
     "The option matrix is enumerated. (A) backend level: config {metadata_path absent/same/different} x {memory_cache_mb absent/0.5/2} x {readonly absent/true/false} x explicit arguments "
     "{read_only None/True/False} x {memory_cache_mb None/1} x {path None/other} x construction {constructor with config, StorageBackend.create}; (B) cluster/environment level: storage type "
-    "{filesystem, memory, null} x runner {absent, local, null} x readonly x cache (incl. fractional sizes) x metadata path x source {constructor objects, inline dict, JSON files, YAML file with jinja parameters} "
+    "{filesystem, memory, null} x runner {absent, local, null} x readonly x cache (incl. fractional sizes) x metadata path x source {constructor objects, inline dict, JSON files, YAML file with jinja parameters; for a sample also with a base directory named 'R&D <team> 100%' passed as template parameter} "
     "x 1-3 repositories defining the same cluster name in every priority order, each also rebuilt from Environment.to_dict(); (C) a live environment: every sequence of up to 4 (quick) / 5 (thorough) operations "
     "{resolve cluster c, resolve d, prepend a repository defining c, prepend one defining d, append one defining c, append one defining c and d} after which each name must resolve to the first repository in the current priority order (or to nothing), also after a dump/rebuild. Oracle: differential on behaviour against the effective options computed "
     "by an independent model: files appear under the configured data/metadata roots (audit hook), a second read opens no file iff a cache of the configured size exists, memoize writes nothing and forget raises "
@@ -292,7 +292,12 @@ def build_env(case, base):
 
 def run_b(case, scratch):
     out = core.Outcome()
-    d = env.fresh_dir(scratch, "c18b-")
+    d0 = env.fresh_dir(scratch, "c18b-")
+    d = d0
+    if case.get("odd_base"):
+        # a base directory whose name has characters that mean something to HTML/templating, YAML-safe inside quotes
+        d = os.path.join(d0, "R&D <team> 100%")
+        os.makedirs(d)
     before = m.Environment.get()
     try:
         problems = []
@@ -327,12 +332,12 @@ def run_b(case, scratch):
                    for rs in case["repos"] for sp in rs["clusters"].values())
         out.nontrivial = nopt >= 2 and case["source"] != "ctor"
         dup = len({cn for rs in case["repos"] for cn in rs["clusters"]}) < sum(len(rs["clusters"]) for rs in case["repos"])
-        out.labels = ["B:source:" + case["source"], "B:repos:%d" % len(case["repos"])] + (["B:duplicate-cluster-names"] if dup else []) + \
+        out.labels = ["B:source:" + case["source"], "B:repos:%d" % len(case["repos"])] + (["B:path-with-special-characters"] if case.get("odd_base") else []) + (["B:duplicate-cluster-names"] if dup else []) + \
             sorted({"B:type:" + sp["type"] for rs in case["repos"] for sp in rs["clusters"].values()})
         return out
     finally:
         m.Environment.set(before)
-        env.rm(d)
+        env.rm(d0)
 
 
 # ------------------------------------------------------------------------------------------
@@ -445,8 +450,10 @@ def points_b(thorough):
     i = 0
     for src in ["ctor", "dict", "json", "yaml"]:
         # single repository, single cluster: the whole option matrix
-        for sp in specs:
+        for si, sp in enumerate(specs):
             yield {"part": "B", "source": src, "repos": [{"clusters": {"c": dict(sp, dir="r0c")}}]}
+            if sp["type"] == "filesystem" and (thorough or si % 5 == 0):
+                yield {"part": "B", "source": src, "odd_base": True, "repos": [{"clusters": {"c": dict(sp, dir="r0c")}}]}
         # priority order: 2-3 repositories defining the same names, every order of a few distinguishable specs
         pool = [dict(specs[k % len(specs)], dir="p%d" % k) for k in (3, 17, 40, 58)]
         for n in (2, 3):
